@@ -40,7 +40,7 @@ def main():
             if r.returncode not in (0, 1):
                 results[c]["tail"] = r.stdout[-1500:]
     finally:
-        sh("git -C %s checkout -- ." % REPO)
+        sh("git -C %s checkout -- . && git -C %s clean -fdq -- nutype nutype_macros test_suite examples" % (REPO, REPO))
         sh("rm -rf %s/replays" % VERIF)
     print(json.dumps(results, indent=1))
     return 0
